@@ -382,3 +382,21 @@ Proof.
   cbn [hist_ok]. split; [vm_compute; intuition|]. split; [exact ex_shrinks|]. split; [exact Logic.I|exact Logic.I].
 Qed.
 Print Assumptions memattr_dup_shared_refuted.
+
+(* targets other than NUMA nodes whose os_index is not unique within their type
+   (hypothesis wf_os_unique of [wf_topo] violated: two cores numbered 0 in two
+   packages) are confused by hwloc__memattr_get_target's "gp_index OR os_index"
+   match: the value set for one core is read through the other *)
+Definition ex_core_a := Obj HWLOC_OBJ_CORE 3 0 true (bs_of_N 1) 0 0.
+Definition ex_core_b := Obj HWLOC_OBJ_CORE 6 0 true (bs_of_N 2) 0 0.
+Definition ex_topo_dupos := Topo (bs_of_N 3)
+  [Obj HWLOC_OBJ_MACHINE 1 0 true (bs_of_N 3) 0 0; ex_core_a; ex_core_b;
+   Obj HWLOC_OBJ_NUMANODE 8 0 true (bs_of_N 3) 1024 0].
+Theorem memattr_target_os_index_refuted :
+  exists ops,
+    let s := run (init_state ex_topo_dupos) ops in
+    ex_core_a <> ex_core_b /\
+    snd (get_value s 8 (Some ex_core_b) None 0) = Err EINVAL /\
+    snd (get_value (fst (set_value s 8 (Some ex_core_a) None 0 10)) 8 (Some ex_core_b) None 0) = Ok 10.
+Proof. exists [ORegister (nm [102]) 1]. vm_compute. repeat split. discriminate. Qed.
+Print Assumptions memattr_target_os_index_refuted.
